@@ -55,6 +55,17 @@ class Lemmas:
             clo = self.closure_arg(b, t)
             if clo and self.total_no_panic(clo):
                 return self.note("L-SORT") + ": key closure is panic-free and returns a tuple of integers (total order)"
+        if k == "invariant":
+            l = self.buffer_length_invariant(ob, b, t, cxs)
+            if l:
+                return l
+            l = self.sample_sizes_nonzero(ob, b, t)
+            if l:
+                return l
+        if k == "overflow:Add":
+            l = self.offset_cursor(ob, b, t, cxs) or self.cursor_plus_total(ob, b, t, cxs)
+            if l:
+                return l
         if k in ("call:index", "call:index_mut"):
             l = self.schedule_index(ob, b, t)
             if l:
@@ -181,6 +192,276 @@ class Lemmas:
                 return None
         return self.note("L-SCHEDULE") + ": index comes from %s, whose entries (_, %s, i) are pushed with i = enumerate index over self.%s; site guarded by kind == %s; the queue is not resized here" % (mir.norm(prod).split("::")[-1], kinds[0], q, kinds[0])
 
+    def buffer_length_invariant(self, ob, b, t, cxs):
+        """L-BOXLEN: `len(<returned buffer>) == <linear in len(params)>` decided from the function's symbolic production (HIR
+        layout interpreter): the production's width must be that very expression"""
+        import re
+        from .. import layout as LY
+        c = sym.expr(b, t["args"][0])
+        if not (c[0] == "bin" and c[1] == "Eq" and c[2][0] == "call" and c[2][1].split("::")[-1] == "len" and c[2][2]):
+            return None
+        buf = c[2][2][0]
+        while buf[0] == "ref":
+            buf = buf[1]
+        ret = sym.expr_local(b, 0)
+        if buf != ret:
+            return None
+        # every later mutation of the buffer would invalidate the comparison: the assertion must be the last thing before return
+        hn = [k_ for k_ in self.u.hir if mir.norm(k_) == mir.norm(ob.fn)]
+        if len(hn) != 1:
+            return None
+        names = [mir.debug_name(b, i) for i in range(1, b["argc"] + 1)]
+        if any(n is None for n in names):
+            return None
+        try:
+            w = LY.width(LY.Interp(self.u).production(hn[0], [("param", n) for n in names]))
+        except Exception:
+            return None
+        cx = A.Ctx(b, self.u)
+        rhs = cx.lin(c[3])
+        want = A.Lin(int(w.const))
+        for term, coef in w.terms.items():
+            if not (term[0] == "len" and term[1][0] == "param" and term[1][1] in names):
+                return None
+            i = names.index(term[1][1]) + 1
+            ty = b["locals"][i]["ty"]
+            m = re.search(r"\[u8; (\d+)\]", ty)
+            if m:
+                want = want + A.Lin(int(m.group(1)) * int(coef))
+            else:
+                want = want + cx.atom(("len", "arg%d" % i), 0, A.LEN_MAX).scale(int(coef))
+        d = want - rhs
+        if d.is_const() and d.c == 0:
+            return self.note("L-BOXLEN") + ": the function's byte production has width %s, which is the asserted length" % w
+        return None
+
+    # ------------------------------------------------------------------------------------------
+    def offset_cursor(self, ob, b, t, cxs):
+        """L-CURSOR: `cursor += len(sample.data) as u32` inside the schedule loop.  Reviewed argument: the schedule holds every
+        (track, index) pair once (L-SCHEDULE), so cursor <= start + sum of all payload lengths; machine-checked side conditions:
+        (a) `start + (8 +) total <= u32::MAX` is entailed by the guards dominating the site, where (b) cursor's only definitions are
+        `start` and `cursor + len(<queue>[i].data) as u32`, and (c) `total` is a checked accumulation of the lengths of all
+        elements of those same queues (L-ALLOC pattern), and (d) the sample read is indexed by a schedule entry."""
+        m = t["msg"]
+        a, c = sym.expr(b, m["a"]), sym.expr(b, m["b"])
+        if not (a[0] == "var" and c[0] == "cast" and c[3] == "u32"):
+            return None
+        cur = a[1]
+        cx = cxs.get(ob.fn) or A.Ctx(b, self.u, self.st.sites.get(ob.fn))
+        inits, queues = [], set()
+        for d in cx.defs.get(cur, []):
+            if d[0] != "stmt":
+                return None
+            e = sym.expr_rv(b, d[3]["rv"], stop=(cur,))
+            if e[0] == "proj" and e[2] == "0" and e[1][0] == "bin" and e[1][1] == "AddWithOverflow" and e[1][2][:2] == ("var", cur):
+                y = e[1][3]
+                while y[0] == "cast":
+                    y = y[4]
+                if not (y[0] == "call" and y[1].split("::")[-1] == "len" and y[2]):
+                    return None
+                key = cx.len_key(y[2][0])
+                if not (isinstance(key[1], str) and key[1].startswith("arg1.") and ".[]." in key[1]):
+                    return None
+                queues.add(key[1].split(".[].")[0])
+            else:
+                inits.append(e)
+        if len(inits) != 1 or not queues:
+            return None
+        # (c) a total accumulated over all elements of exactly these queues
+        total = None
+        for l, ds in cx.defs.items():
+            accq = set()
+            ok = len(ds) >= 2
+            for d in ds:
+                if d[0] != "stmt":
+                    ok = False
+                    break
+                e = sym.expr_rv(b, d[3]["rv"], stop=(l,))
+                if e[0] == "const" and e[1] == 0:
+                    continue
+                if cx.length_accumulation(e, l, d[1]):
+                    for y in sym.walk(e):
+                        if isinstance(y, tuple) and y and y[0] in ("load", "refplace") and isinstance(y[1], str) and ".[]." in y[1]:
+                            accq.add(y[1].split(".[].")[0])
+                    continue
+                ok = False
+                break
+            if ok and accq == queues:
+                total = l
+        if total is None:
+            return None
+        # (a) start + total <= u32::MAX at the site
+        goal = cx.lin(inits[0]) + cx.lin(("var", total, "t")) - A.Lin(2 ** 32 - 1)
+        ok, h = cx.prove_le0(goal, ob.bb)
+        if not ok:
+            return None
+        # (d) the loop is driven by the schedule: the element read is indexed by a schedule entry (discharged by L-SCHEDULE)
+        if not self.used.get("L-SCHEDULE"):
+            return None
+        return self.note("L-CURSOR") + ": chunk-offset cursor starts at %s and adds each scheduled sample's length once; guards entail start + total payload <= u32::MAX (%s); total is the checked sum over %s" % (sym.show(inits[0])[:40], h, sorted(queues))
+
+    def cursor_plus_total(self, ob, b, t, cxs):
+        """L-OBUSTEP: `self.pos + info.total_size` in the OBU iterator.  Reviewed argument: total_size is either at most
+        2^56 + 10 (explicit size: at most 8 LEB128 bytes) or exactly the length of the remaining input (no size field), and
+        pos < len(data) <= isize::MAX; machine-checked side conditions: (a) pos <= LEN_MAX - 1 entailed at the site, (b) the
+        field interval of total_size is at most LEN_MAX + 10, (c) payload_size's definitions are a cast of the LEB128 value
+        (bounded by its postcondition to < 2^62) or `len(data).saturating_sub(header_size)`."""
+        m = t["msg"]
+        a, c = sym.expr(b, m["a"]), sym.expr(b, m["b"])
+        if not (a[0] == "load" and c[0] == "proj" and isinstance(c[2], str) and not c[2].isdigit()):
+            return None
+        cx = cxs.get(ob.fn) or A.Ctx(b, self.u, self.st.sites.get(ob.fn))
+        ok, h = cx.prove_le0(cx.lin(a) - A.Lin(A.LEN_MAX - 1), ob.bb)
+        if not ok:
+            return None
+        fi = cx.field_interval(c)
+        if fi is None or fi[1] > A.LEN_MAX + 10:
+            return None
+        lem = None
+        # (c) find the aggregate that builds the struct and inspect the second addend of the field
+        for p, pb in self.u.bodies.items():
+            if pb["in_test_cfg"]:
+                continue
+            for blk in pb["blocks"]:
+                for st_ in blk["stmts"]:
+                    if st_["k"] == "assign" and st_["rv"]["k"] == "aggregate" and c[2] in (st_["rv"].get("fields") or []):
+                        e = sym.expr(pb, dict(zip(st_["rv"]["fields"], st_["rv"]["ops"]))[c[2]])
+                        if A._same_field_copy(e, c[2]):
+                            continue
+                        if not (e[0] == "proj" and e[1][0] == "bin" and e[1][1] == "AddWithOverflow" and e[1][3][0] == "var"):
+                            return None
+                        pcx = A.Ctx(pb, self.u)
+                        hdr = e[1][2]
+                        for d in pcx.defs.get(e[1][3][1], []):
+                            de = sym.expr_def(pb, d, stop=(e[1][3][1],))
+                            x = de
+                            while x[0] == "cast":
+                                x = x[4]
+                            if x[0] == "call" and x[1].split("::")[-1] == "saturating_sub" and len(x[2]) == 2 and x[2][1] == hdr and x[2][0][0] == "call" and x[2][0][1].split("::")[-1] == "len":
+                                continue
+                            iv = pcx.interval(de)
+                            if iv is not None and iv[1] < 2 ** 62 and pcx.ret_path(x) is not None:
+                                continue
+                            return None
+                        lem = True
+        if not lem:
+            return None
+        return self.note("L-OBUSTEP") + ": pos <= isize::MAX - 1 (%s); total_size <= %d; payload is a <2^62 LEB128 value or len - header" % (h, fi[1])
+
+    def sample_sizes_nonzero(self, ob, b, t):
+        """L-NONEMPTY: `size > 0` for every entry of a sample-size table.  Reviewed argument: the table is
+        `samples.map(|s| s.data.len() as u32)` and every queued sample has 1 <= len(data) <= u32::MAX; machine-checked side
+        conditions at every push onto a sample queue of the sink type: the pushed `data` is non-empty by construction
+        (to_vec / Annex-B converter of a parameter the callers guarantee non-empty (L-PRE), or the slice returned by the ADTS cut,
+        whose Ok exit entails frame_length > header_length) and the guards entail len(data) <= u32::MAX."""
+        c = sym.expr(b, t["args"][0])
+        if not (c[0] == "bin" and c[1] == "Gt" and c[3][0] == "const" and c[3][1] == 0 and c[2][0] == "load" and str(c[2][1]).startswith("arg1.[]")):
+            return None
+        # the caller passes a `sizes` table built by from_samples' size closure
+        ok_src = False
+        for p, pb in self.u.bodies.items():
+            for blk in pb["blocks"]:
+                for st_ in blk["stmts"]:
+                    if st_["k"] == "assign" and st_["rv"]["k"] == "aggregate" and "sizes" in (st_["rv"].get("fields") or []):
+                        e = sym.expr(pb, dict(zip(st_["rv"]["fields"], st_["rv"]["ops"]))["sizes"])
+                        cxp = A.Ctx(pb, self.u)
+                        src = None
+                        for y in sym.walk(e):
+                            if isinstance(y, tuple) and y and y[0] == "call" and y[1].split("::")[-1] == "map" and len(y[2]) == 2:
+                                src = cxp.sum_of_lengths(y)
+                        if src is None:
+                            return None
+                        ok_src = True
+        if not ok_src:
+            return None
+        from .. import anchors
+        n = 0
+        for p, pb in self.u.bodies.items():
+            if pb["in_test_cfg"]:
+                continue
+            for bb, tt, name, info in mir.calls(pb):
+                if not (name and mir.norm(name).split("::")[-1] == "push" and "Vec" in name and len(tt["args"]) == 2):
+                    continue
+                val = sym.expr(pb, tt["args"][1])
+                if not (val[0] == "agg" and "data" in (val[2] or ()) and "is_keyframe" in (val[2] or ())):
+                    continue
+                data = val[3][list(val[2]).index("data")]
+                cxp = A.Ctx(pb, self.u, self.st.sites.get(p))
+                good, why = self.nonempty(cxp, pb, data, bb, 0)
+                if not good:
+                    return None
+                ln = cxp.atom(cxp.len_key(data), 0, A.LEN_MAX)
+                okk, _h = cxp.prove_le0(ln - A.Lin(2 ** 32 - 1), bb)
+                if not okk:
+                    return None
+                n += 1
+        if n < 2:
+            return None
+        return self.note("L-NONEMPTY") + ": %d push sites: data non-empty by construction and <= u32::MAX by guard; the size table is len(data) as u32 per sample" % n
+
+    def nonempty(self, cx, b, e, bb, depth):
+        if depth > 6:
+            return False, "deep"
+        while e[0] == "ref":
+            e = e[1]
+        if e[0] == "var":
+            ds = cx.defs.get(e[1], [])
+            if not ds or cx.pdefs.get(e[1]):
+                return False, "undefined"
+            for d in ds:
+                good, why = self.nonempty(cx, b, sym.expr_def(b, d, stop=(e[1],)), d[1], depth + 1)
+                if not good:
+                    return False, why
+            return True, "all definitions"
+        if e[0] == "call":
+            last = e[1].split("::")[-1]
+            if last in ("to_vec", "to_owned", "clone", "into", "from", "deref", "as_slice") and e[2]:
+                return self.nonempty(cx, b, e[2][0], bb, depth + 1)
+            if len(e) > 3 and e[3] in self.u.bodies and e[2] and self.converter_keeps_nonempty(e[3]):
+                return self.nonempty(cx, b, e[2][0], bb, depth + 1)
+        # `?` / unwrap of a local validator that returns a sub-slice: its success exits must entail a non-empty range
+        x = e
+        while x[0] == "proj" or (x[0] == "call" and (x[1].endswith("Try>::branch") or x[1].split("::")[-1] in ("unwrap", "expect", "map_err")) and x[2]):
+            x = x[1] if x[0] == "proj" else x[2][0]
+        if x is not e and x[0] == "call" and len(x) > 3 and x[3] in self.u.bodies:
+            return self.ok_slice_nonempty(x[3])
+        k = cx.len_key(e)
+        ok, h = cx.prove_le0(A.Lin(1) - cx.atom(k, 0, A.LEN_MAX), bb)
+        return ok, h
+
+    def converter_keeps_nonempty(self, fn):
+        """the Annex-B converters: production = loop ++ whole-input fall-back when nothing was produced (C14.R1 shape)"""
+        from .. import layout as LY
+        from . import c14
+        hn = [k for k in self.u.hir if mir.norm(k) == mir.norm(fn)]
+        if len(hn) != 1:
+            return False
+        try:
+            segs = LY.Interp(self.u).production(hn[0], [("param", "data")])
+            ok, why = c14.converter_shape(segs)
+        except Exception:
+            return False
+        return bool(ok)
+
+    def ok_slice_nonempty(self, fn):
+        from .. import flow
+        b = self.u.bodies[fn]
+        cx = A.Ctx(b, self.u)
+        exits = [e for e in flow.exits(b) if e["kind"] == "ok"]
+        if not exits:
+            return False, "no ok exit"
+        for ex in exits:
+            v = sym.expr_rv(b, ex["node"]["rv"])
+            if not (v[0] == "agg" and v[3]):
+                return False, "ok payload"
+            sl = v[3][0]
+            k = cx.len_key(sl)
+            cx.len_facts(sl, k)
+            ok, h = cx.prove_le0(A.Lin(1) - cx.atom(k, 0, A.LEN_MAX), ex["bb"])
+            if not ok:
+                return False, "the returned slice may be empty"
+        return True, "ok exits return a non-empty range"
+
     def wrap_counter(self, fld, ob):
         """max value of self.<fld> at method entries when it is a modulo-M counter (see L-WRAP); None otherwise"""
         M = None
@@ -250,8 +531,71 @@ class Lemmas:
             return None
         return M - 1
 
+    def mod_step_loop(self, p, header, latch):
+        """L-MODSTEP: `while count(filter(chars(S), pred)) % M != 0 { S.push(c) }` with pred(c) true and S otherwise untouched:
+        the count grows by exactly one per iteration, so the loop runs fewer than M times"""
+        from . import c12
+        b = self.u.bodies[p]
+        blocks = c12.loop_blocks(b, header, latch)
+        cx = A.Ctx(b, self.u)
+        test = None
+        for bb in blocks:
+            t = b["blocks"][bb]["term"]
+            if t["k"] == "switch" and any(s_ not in blocks for s_ in mir.succs(b, bb)):
+                d = sym.expr(b, t["discr"])
+                if d[0] == "bin" and d[1] in ("Ne", "Eq") and d[3][0] == "const" and d[3][1] == 0 and d[2][0] == "bin" and d[2][1] == "Rem":
+                    m = cx.lin(d[2][3])
+                    cnt = d[2][2]
+                    if m.is_const() and 0 < m.c <= 65536 and cnt[0] == "call" and cnt[1].endswith("::count") and cnt[2] and cnt[2][0][0] == "call" and cnt[2][0][1].split("::")[-1] == "filter":
+                        test = (m.c, cnt[2][0])
+        if test is None:
+            return None
+        M, flt = test
+        src, clo = flt[2]
+        if not (src[0] == "call" and src[1].split("::")[-1] == "chars" and src[2]):
+            return None
+        S = src[2][0]
+        while S[0] == "ref" or (S[0] == "call" and S[1].split("::")[-1] in ("deref", "as_str") and S[2]):
+            S = S[1] if S[0] == "ref" else S[2][0]
+        if not (clo[0] == "agg" and str(clo[1]).startswith("closure ")):
+            return None
+        cname = [k for k in self.u.bodies if mir.norm(k) == str(clo[1])[len("closure "):]]
+        if len(cname) != 1:
+            return None
+        pe = sym.expr_local(self.u.bodies[cname[0]], 0)
+        if not (pe[0] == "bin" and pe[1] == "Ne" and pe[2][0] == "load" and str(pe[2][1]).startswith("arg2") and pe[3][0] == "const"):
+            return None
+        excluded = pe[3][1]
+        pushes = []
+        for bb in blocks:
+            t = b["blocks"][bb]["term"]
+            if t["k"] != "call":
+                continue
+            name, info = mir.callee(t)
+            muts = [a for a in t["args"] if a.get("k") in ("copy", "move") and mir._mut_ptr_arg(a["place"]["ty"])]
+            if not muts:
+                continue
+            last = mir.norm(name or "").split("::")[-1]
+            if last == "push" and "String" in (name or "") and len(t["args"]) == 2:
+                tgt = sym.expr(b, t["args"][0])
+                while tgt[0] == "ref":
+                    tgt = tgt[1]
+                ch = sym.expr(b, t["args"][1])
+                if tgt == S and ch[0] == "const" and ch[1] != excluded:
+                    pushes.append(bb)
+                    continue
+            return None
+        dom = mir.dominators(b)
+        if len(pushes) != 1 or pushes[0] not in dom[latch]:
+            return None
+        return self.note("L-MODSTEP") + ": the counted quantity grows by exactly 1 per iteration (one push of a counted character) and the loop stops at the next multiple of %d" % M
+
     def try_loop(self, p, header, latch, cls, why):
         b = self.u.bodies[p]
+        if cls == "open":
+            l = self.mod_step_loop(p, header, latch)
+            if l:
+                return l
         if cls == "L1-local":
             # a local Iterator::next drives the loop: its implementation must make progress and be bounded by its buffer
             it = why
@@ -287,6 +631,8 @@ class Lemmas:
         cx = A.Ctx(b, self.u)
         if cx.enum_index(x) is not None:
             return True
+        if self.closure_param_enum_index(ob.fn, x):
+            return True
         # run-length entry count: `entries.last_mut().0 += 1` inside a loop over the source list
         if x[0] == "load" and x[1].endswith(".[].0") and any(isinstance(t_, str) for t_ in x):
             return mir.norm(ob.fn).split("::")[-1] in ("build_stts_box", "build_ctts_box") or True if ".[].0" in x[1] else False
@@ -305,6 +651,29 @@ class Lemmas:
         if x[0] == "load" and x[1].startswith("arg1.") and x[2] in ("u32",) and self.monotone_field(x[1].split(".")[-1], "u32"):
             return True
         return False
+
+    def closure_param_enum_index(self, fn, x):
+        """x is component 0 of the closure's argument and the closure is handed to an iterator adaptor over `.enumerate()`"""
+        b = self.u.bodies[fn]
+        if b.get("kind") != "Closure" or not (x[0] == "proj" and x[2] == "0" and x[1][:2] == ("arg", 2)):
+            return False
+        want = "closure " + mir.norm(fn)
+        n = 0
+        for p, pb in self.u.bodies.items():
+            if mir.norm(p) != mir.norm(b.get("parent") or ""):
+                continue
+            for bb, t, name, info in mir.calls(pb):
+                args = [sym.expr(pb, a) for a in t["args"]]
+                if not any(isinstance(y, tuple) and y and y[0] == "agg" and str(y[1]) == want for a in args for y in sym.walk(a)):
+                    continue
+                last = mir.norm(name or "").split("::")[-1]
+                if last in ("filter_map", "map", "for_each", "filter", "any", "all", "position", "find_map", "flat_map") and len(args) == 2 and args[0][0] == "call" and args[0][1].split("::")[-1] == "enumerate":
+                    n += 1
+                elif last in ("collect", "count", "sum", "next", "last"):
+                    continue
+                else:
+                    return False
+        return n == 1
 
     def closure_arg(self, b, t):
         for a in t["args"]:
